@@ -221,6 +221,12 @@ def describe(case, s, t, labels, spec):
         ctx.add("src2:" + s["kind"])
     if (t["kind"], t["pos"]) != ("call", "arg0"):
         ctx.add("snk:%s:%s" % (t["kind"], t["pos"]))
+    # an extra sink statement in the middle of the chain (link `tee`, it has no label of its own) that calls an
+    # unresolved method ON the tainted value: lian treats the receiver as re-defined by the call
+    tee_spec = (spec or {}).get("chains", [{}])[0 if spec and len(spec.get("chains", [])) == 1 else min(s["chain"], max(0, len((spec or {}).get("chains", [])) - 1))] if spec else {}
+    if any(l.get("k") == "tee" and (l.get("snk") or {}).get("kind") == "method" and (l.get("snk") or {}).get("pos") == "receiver"
+           for l in (tee_spec.get("links") or [])) and t is not None and t.get("ending", "sink") == "sink":
+        ctx.add("tee:method:receiver")
     if spec is not None and not spec.get("uniq_names") and len(case["sources"]) + len(case["sinks"]) > 2:
         ctx.add("shared-names")
     # a loop at module level: the module-level statements after it (the calls that start the other chains) are
@@ -248,6 +254,8 @@ def sig_class(desc):
         return "multi-chain", "+".join(sorted({tg._strip_label(x) for x in seq})) or "direct"
     if "shared-names" in ctx:
         return "shared-names", "-"
+    if "tee:method:receiver" in ctx:
+        return "tainted-receiver-of-unresolved-call", "-"
     stripped = [tg._strip_label(x) for x in seq]
     if "global_import" in stripped:
         ctx.discard("start_mod")
